@@ -115,11 +115,17 @@ pub fn gen_value(rng: &mut Rng, k: &Knobs, class: &str) -> SV {
     "record" => {
       let n = 2 + rng.usize(2);
       let fnames = ["a", "b", "c"];
-      SV::Record((0..n).map(|i| { let kk = rng.pick(&k.kinds).clone(); let v = gen_scalar(rng, &kk); (fnames[i].to_string(), v.kind_tag(), v) }).collect())
+      let mut fields: Vec<(String, String, SV)> = (0..n).map(|i| { let kk = rng.pick(&k.kinds).clone(); let v = gen_scalar(rng, &kk); (fnames[i].to_string(), v.kind_tag(), v) }).collect();
+      // nested: now and then a field holds a small matrix (copied with the record, never shared)
+      if rng.chance(1, 4) { let len = 2 + rng.usize(2); let v = gen_vector_of(rng, "f64", len, false); fields.push(("m".to_string(), v.kind_tag(), v)); }
+      SV::Record(fields)
     }
     "tuple" => {
       let n = 2 + rng.usize(2);
-      SV::Tuple((0..n).map(|_| { let kk = rng.pick(&k.kinds).clone(); gen_scalar(rng, &kk) }).collect())
+      let mut els: Vec<SV> = (0..n).map(|_| { let kk = rng.pick(&k.kinds).clone(); gen_scalar(rng, &kk) }).collect();
+      if rng.chance(1, 4) { els.push(gen_vector_of(rng, "f64", 2, false)); }
+      if rng.chance(1, 6) { let v = gen_scalar(rng, "f64"); els.push(SV::Record(vec![("x".to_string(), v.kind_tag(), v)])); }
+      SV::Tuple(els)
     }
     "set" => {
       let mut els: Vec<SV> = vec![];
@@ -391,8 +397,8 @@ fn gen_assign(rng: &mut Rng, k: &Knobs, m: &Model, fault: bool) -> Option<Op> {
             if rng.chance(1, 4) { Expr::VarOp(name.clone(), if kind == "string" { Bop::Add } else if kind == "bool" { Bop::Or } else { *rng.pick(&[Bop::Add, Bop::Sub, Bop::Mul]) }, gen_scalar(rng, &kind)) }
             else { scalar_source(rng, m, &kind) }
           }
-          SV::Record(f) => Expr::Lit(SV::Record(f.iter().map(|(n, kk, _)| (n.clone(), kk.clone(), gen_scalar(rng, kk))).collect())),
-          SV::Tuple(el) => Expr::Lit(SV::Tuple(el.iter().map(|x| gen_scalar(rng, &x.kind_tag())).collect())),
+          SV::Record(f) => Expr::Lit(SV::Record(f.iter().map(|(n, kk, v)| (n.clone(), kk.clone(), if v.is_scalar() { gen_scalar(rng, kk) } else { v.clone() })).collect())),
+          SV::Tuple(el) => Expr::Lit(SV::Tuple(el.iter().map(|x| if x.is_scalar() { gen_scalar(rng, &x.kind_tag()) } else { x.clone() }).collect())),
           other => Expr::Lit(gen_value(rng, k, match other { SV::Set(..) => "set", SV::Table(..) => "table", _ => "scalar" })),
         }
       }
@@ -462,7 +468,9 @@ fn gen_field_assign(rng: &mut Rng, k: &Knobs, m: &Model, fault: bool) -> Option<
   let (name, ft) = pick_target(rng, k, m, fault, |b| matches!(b.v, SV::Record(_) | SV::Table(..)))?;
   match m.store.get(&name).map(|b| b.v.clone()) {
     Some(SV::Record(f)) => {
-      let (fname, fkind, _) = rng.pick(&f).clone();
+      let scalar_fields: Vec<(String, String, SV)> = f.iter().filter(|(_, _, v)| v.is_scalar()).cloned().collect();
+      if scalar_fields.is_empty() { return None; }
+      let (fname, fkind, _) = rng.pick(&scalar_fields).clone();
       if fault && !ft {
         return Some(match rng.below(3) {
           0 => Op::FieldAssign { name, field: "nosuch".into(), e: Expr::Lit(gen_scalar(rng, "f64")) },
@@ -512,7 +520,9 @@ fn gen_tuple_assign(rng: &mut Rng, k: &Knobs, m: &Model, fault: bool) -> Option<
   let (name, ft) = pick_target(rng, k, m, fault, |b| matches!(b.v, SV::Tuple(_)))?;
   match m.store.get(&name).map(|b| b.v.clone()) {
     Some(SV::Tuple(el)) => {
-      let pos = 1 + rng.usize(el.len());
+      let scalar_pos: Vec<usize> = (0..el.len()).filter(|i| el[*i].is_scalar()).collect();
+      if scalar_pos.is_empty() { return None; }
+      let pos = 1 + *rng.pick(&scalar_pos);
       let kind = el[pos - 1].kind_tag();
       if fault && !ft {
         return Some(match rng.below(3) {
